@@ -20,6 +20,8 @@ structure RMarket where
   balS : Nat
   minL : Nat := 0    -- required minimum balances (only used for the current market)
   minS : Nat := 0
+  colL : Nat := 0    -- total position collateral held in the long token / in the short token
+  colS : Nat := 0
   deriving Repr, DecidableEq
 
 def RMarket.isPure (m : RMarket) : Bool := m.long == m.short
@@ -52,13 +54,45 @@ def RMarket.recordOut (m : RMarket) (tok amt : Nat) : Option RMarket :=
     else
       if amt ≤ m.balS then some { m with balS := m.balS - amt } else none
 
+/-- collateral criterion of `validate_market_balance_for_the_given_token(token, excluded)`: the recorded
+balance minus `excluded` (checked) covers the total position collateral held in that token (a pure
+market: in its single token) -/
+def RMarket.colOk (m : RMarket) (isLong : Bool) (excluded : Nat) : Bool :=
+  let bal := if m.isPure || isLong then m.balL else m.balS
+  let col := if m.isPure then m.colL + m.colS else if isLong then m.colL else m.colS
+  decide (excluded ≤ bal) && decide (col ≤ bal - excluded)
+
 /-- `validate_market_balance_for_the_given_token(token, 0)` against the required minimum -/
 def RMarket.validFor (m : RMarket) (tok : Nat) : Bool :=
   match m.side tok with
   | none => false
   | some isLong =>
-    if m.isPure then decide (m.minL + m.minS ≤ m.balL)
-    else if isLong then decide (m.minL ≤ m.balL) else decide (m.minS ≤ m.balS)
+    (if m.isPure then decide (m.minL + m.minS ≤ m.balL)
+     else if isLong then decide (m.minL ≤ m.balL) else decide (m.minS ≤ m.balS)) && m.colOk isLong 0
+
+/-- `validate_market_balances(long_excluding, short_excluding)`, collateral criterion only (the pool
+criterion is property C22's and passes in generated cases: provided markets carry a surplus over their
+pool amounts) -/
+def RMarket.validBalances (m : RMarket) (exL exS : Nat) : Bool :=
+  if m.isPure then decide (exL + exS < 2 ^ 64) && m.colOk true (exL + exS)
+  else m.colOk true exL && m.colOk false exS
+
+/-- the exclusion bookkeeping of `validate_market_balances_excluding_the_given_token_amounts` -/
+def RMarket.exclSide (m : RMarket) (tok amt : Nat) (acc : Nat × Nat) : Option (Nat × Nat) :=
+  if amt = 0 then some acc else
+  match m.side tok with
+  | none => none
+  | some true => if acc.1 + amt < 2 ^ 64 then some (acc.1 + amt, acc.2) else none
+  | some false => if acc.2 + amt < 2 ^ 64 then some (acc.1, acc.2 + amt) else none
+
+/-- both exclusions accumulated (long side, short side) -/
+def RMarket.excl (m : RMarket) (t1 t2 a1 a2 : Nat) : Option (Nat × Nat) :=
+  (m.exclSide t1 a1 (0, 0)).bind (m.exclSide t2 a2)
+
+def RMarket.validExcl (m : RMarket) (t1 t2 a1 a2 : Nat) : Bool :=
+  match m.excl t1 t2 a1 a2 with
+  | none => false
+  | some e => m.validBalances e.1 e.2
 
 structure Hop where
   market : Nat
@@ -122,6 +156,7 @@ def marketToCur (s : RState) (mt tok amt : Nat) : Option RState :=
     match m.recordOut tok amt with
     | none => none
     | some m' =>
+      if !m'.validBalances 0 0 then none else     -- `last_market.validate_market_balances(0, 0)`
       match s.cur.recordIn tok amt with
       | none => none
       | some cur' => some { s with cur := cur', markets := setMarket s.markets m' }
@@ -134,6 +169,7 @@ def marketToMarket (s : RState) (a b tok amt : Nat) : Option RState :=
     match ma.recordOut tok amt with
     | none => none
     | some ma' =>
+      if !ma'.validBalances 0 0 then none else    -- `market.validate_market_balances(0, 0)` after a non-final hop
       let ms := setMarket s.markets ma'
       match findMarket ms b with
       | none => none
@@ -234,6 +270,22 @@ def finalSideCheck (into : Bool) (s : RState) (primary secondary : List Nat)
     amt == 0 || (match getM mt with | some m => (m.side tok).isSome | none => false)
   sideOk (outM primary) expectedOuts.1 o1 && sideOk (outM secondary) expectedOuts.2 o2
 
+/-- final balance validation of `revertible_swap`, amounts included (collateral criterion): the output
+amounts remain deposited in their output markets and are paid out by the enclosing instruction, so each
+output market is validated with what will leave it EXCLUDED — both amounts at once when the two sides end
+in the same market. -/
+def finalBalCheck (into : Bool) (s : RState) (primary secondary : List Nat)
+    (expectedOuts : Nat × Nat) (o1 o2 : Nat) : Bool :=
+  let c := s.cur.token
+  let lm : Nat := if into then c else primary.getLast?.getD c
+  let sm : Nat := if into then c else secondary.getLast?.getD c
+  let getM (t : Nat) : Option RMarket := if t = c then some s.cur else findMarket s.markets t
+  let chk (mt t1 t2 a1 a2 : Nat) : Bool :=
+    match getM mt with | some m => m.validExcl t1 t2 a1 a2 | none => false
+  if lm = sm then chk lm expectedOuts.1 expectedOuts.2 o1 o2 && (lm == c || s.cur.validBalances 0 0)
+  else chk lm expectedOuts.1 expectedOuts.1 o1 0 && chk sm expectedOuts.2 expectedOuts.2 o2 0
+        && (lm == c || sm == c || s.cur.validBalances 0 0)
+
 /-- `revertible_swap`: primary then secondary side (a side with no token or a zero amount is skipped). -/
 def routerSwap (into : Bool) (s : RState) (primary secondary : List Nat)
     (expectedOuts : Nat × Nat) (tokenIns : Option Nat × Option Nat) (amounts : Nat × Nat) :
@@ -256,6 +308,7 @@ def routerSwap (into : Bool) (s : RState) (primary secondary : List Nat)
     match r2 with
     | none => none
     | some (s2, o2) =>
-      if finalSideCheck into s2 primary secondary expectedOuts o1 o2 then some (s2, o1, o2) else none
+      if finalSideCheck into s2 primary secondary expectedOuts o1 o2 && finalBalCheck into s2 primary secondary expectedOuts o1 o2
+      then some (s2, o1, o2) else none
 
 end Gmx
